@@ -141,6 +141,9 @@ def queries(tier, seed):
             qs.append(Q('targa/read_image/file/rle_%s/L%d' % (sn, L), 'C11/read.cpp', 'h_read', defs=dict(FORMAT=3, ENTRY=E['read_image'], DEV=1, PIX='gil::rgb8_pixel_t'), params=[L] + par, rt=['file'],
                         unwind=140, rt_unwind=L + 4, mem_unwind=400, cdefs=dict(VP_FILE_MAX=L + 8), tier='thorough', timeout=300,
                         note='attempt: run-length structure concrete, colour values symbolic; no verdict within 300 s'))
+    import re as _re
+    for q in qs:
+        if _re.search(r'_c[12]_|/t10_|/rle', q.name): q.timeout = 100; q.tier = 'thorough'   # run-length attempts: short cap, never quick
     names = set(); out = []
     for q in qs:
         if q.name in names: continue
